@@ -22,14 +22,22 @@ pub const S_NAMES: [&str; 9] = [
     "simd_map_inplace", "simd_map", "simd_apply", "simd_iter", "simd_iter_pad", "fold", "fold_unroll", "fold_n", "fold_n_unroll",
 ];
 pub const ACC0: i64 = 5;
+/// Initial accumulators of the min / max folds: above / below every generated value, and NOT zero,
+/// so that a zero-padded lane taking part in the reduction is visible.
+pub const ACC_MIN: i64 = 120;
+pub fn acc_max(ty: u32) -> i64 {
+    if ty == 1 || ty == 3 { 3 } else { -120 }
+}
 
 pub trait SliceElem: GetNumOps + Copy + PartialEq + 'static {
+    const TYC: u32;
     fn from_i64(v: i64) -> Self;
     fn to_i64(self) -> i64;
 }
 macro_rules! slice_elem {
-    ($t:ty) => {
+    ($t:ty, $c:literal) => {
         impl SliceElem for $t {
+            const TYC: u32 = $c;
             fn from_i64(v: i64) -> Self {
                 v as $t
             }
@@ -39,17 +47,18 @@ macro_rules! slice_elem {
         }
     };
 }
-slice_elem!(i8);
-slice_elem!(u8);
-slice_elem!(i16);
-slice_elem!(u16);
-slice_elem!(i32);
-slice_elem!(f32);
+slice_elem!(i8, 0);
+slice_elem!(u8, 1);
+slice_elem!(i16, 2);
+slice_elem!(u16, 3);
+slice_elem!(i32, 4);
+slice_elem!(f32, 5);
 
 pub struct SliceOp<'a, T> {
     pub fn_: u32,
     pub unroll: u32,
     pub opk: u32,
+    pub acc_max: i64,
     pub src: &'a [T],
     /// destination: same memory as `src` for the in-place functions (the caller passes the
     /// pointer twice; `src` is then not used)
@@ -84,6 +93,8 @@ impl<T: SliceElem> SimdOp for SliceOp<'_, T> {
         };
         let out = self.out;
         let acc0 = ops.splat(T::from_i64(ACC0));
+        let accmin = ops.splat(T::from_i64(ACC_MIN));
+        let accmax = ops.splat(T::from_i64(self.acc_max));
         match self.fn_ {
             S_MAP_INPLACE => {
                 // Safety: dst was fully initialised by the caller
@@ -132,46 +143,83 @@ impl<T: SliceElem> SimdOp for SliceOp<'_, T> {
                 out.push((hint == cnt) as i64);
             }
             S_FOLD => {
+                // three separate folds: wrapping add, min, max
                 let r = self.src.simd_iter(ops).fold(acc0, |a, x| ops.add(a, x));
+                push_vec(out, r);
+                let r = self.src.simd_iter(ops).fold(accmin, |a, x| ops.min(a, x));
+                push_vec(out, r);
+                let r = self.src.simd_iter(ops).fold(accmax, |a, x| ops.max(a, x));
                 push_vec(out, r);
             }
             S_FOLD_UNROLL => {
-                let it = self.src.simd_iter(ops);
-                let r = match self.unroll {
-                    1 => it.fold_unroll::<1>(acc0, |a, x| ops.add(a, x), |a, b| ops.add(a, b)),
-                    2 => it.fold_unroll::<2>(acc0, |a, x| ops.add(a, x), |a, b| ops.add(a, b)),
-                    _ => it.fold_unroll::<4>(acc0, |a, x| ops.add(a, x), |a, b| ops.add(a, b)),
-                };
-                push_vec(out, r);
+                macro_rules! fu {
+                    ($u:literal) => {{
+                        let r = self.src.simd_iter(ops).fold_unroll::<$u>(acc0, |a, x| ops.add(a, x), |a, b| ops.add(a, b));
+                        push_vec(out, r);
+                        let r = self.src.simd_iter(ops).fold_unroll::<$u>(accmin, |a, x| ops.min(a, x), |a, b| ops.min(a, b));
+                        push_vec(out, r);
+                        let r = self.src.simd_iter(ops).fold_unroll::<$u>(accmax, |a, x| ops.max(a, x), |a, b| ops.max(a, b));
+                        push_vec(out, r);
+                    }};
+                }
+                match self.unroll {
+                    1 => fu!(1),
+                    2 => fu!(2),
+                    _ => fu!(4),
+                }
             }
             S_FOLD_N => {
-                let [s, m] = self.src.simd_iter(ops).fold_n([acc0, acc0], |[s, m], x| [ops.add(s, x), ops.max(m, x)]);
+                let [s, mn, mx] = self
+                    .src
+                    .simd_iter(ops)
+                    .fold_n([acc0, accmin, accmax], |[s, mn, mx], x| [ops.add(s, x), ops.min(mn, x), ops.max(mx, x)]);
                 push_vec(out, s);
-                push_vec(out, m);
+                push_vec(out, mn);
+                push_vec(out, mx);
             }
             S_FOLD_N_UNROLL => {
                 let it = self.src.simd_iter(ops);
-                let f = |[s, m]: [_; 2], x| [ops.add(s, x), ops.max(m, x)];
-                let g = |[s, m]: [_; 2], [s2, m2]: [_; 2]| [ops.add(s, s2), ops.max(m, m2)];
-                let [s, m] = match self.unroll {
-                    1 => it.fold_n_unroll::<2, 1>([acc0, acc0], f, g),
-                    2 => it.fold_n_unroll::<2, 2>([acc0, acc0], f, g),
-                    _ => it.fold_n_unroll::<2, 4>([acc0, acc0], f, g),
+                let f = |[s, mn, mx]: [_; 3], x| [ops.add(s, x), ops.min(mn, x), ops.max(mx, x)];
+                let g = |[s, mn, mx]: [_; 3], [s2, mn2, mx2]: [_; 3]| [ops.add(s, s2), ops.min(mn, mn2), ops.max(mx, mx2)];
+                let init = [acc0, accmin, accmax];
+                let [s, mn, mx] = match self.unroll {
+                    1 => it.fold_n_unroll::<3, 1>(init, f, g),
+                    2 => it.fold_n_unroll::<3, 2>(init, f, g),
+                    _ => it.fold_n_unroll::<3, 4>(init, f, g),
                 };
                 push_vec(out, s);
-                push_vec(out, m);
+                push_vec(out, mn);
+                push_vec(out, mx);
             }
             _ => panic!("unknown slice fn"),
         }
     }
 }
 
-/// Deterministic input data for a slice case.
-pub fn slice_input(ty: u32, len: usize, seed: u64) -> Vec<i64> {
-    let mut rng = SplitMix64(seed ^ ((len as u64) << 32) ^ 0x51ce);
+/// Deterministic input data for a slice case.  For the map functions `family` is 0 (values in
+/// [-100, 100], unsigned [0, 200]); the folds also use families whose range EXCLUDES zero, where the
+/// neutral element of the reduction matters: 1 all positive [1, 100], 2 all negative [-100, -1]
+/// (unsigned: [100, 200]), 3 around +100 [90, 110], 4 around -100 [-110, -90] (unsigned: [1, 20]).
+pub fn slice_input_family(ty: u32, len: usize, seed: u64, family: u32) -> Vec<i64> {
+    let unsigned = ty == 1 || ty == 3;
+    let mut rng = SplitMix64(seed ^ ((len as u64) << 32) ^ 0x51ce ^ ((family as u64) << 56));
     (0..len)
-        .map(|_| if ty == 1 || ty == 3 { rng.below(201) as i64 } else { rng.below(201) as i64 - 100 })
+        .map(|_| match (family, unsigned) {
+            (1, _) => 1 + rng.below(100) as i64,
+            (2, false) => -1 - rng.below(100) as i64,
+            (2, true) => 100 + rng.below(101) as i64,
+            (3, _) => 90 + rng.below(21) as i64,
+            (4, false) => -110 + rng.below(21) as i64,
+            (4, true) => 1 + rng.below(20) as i64,
+            (_, true) => rng.below(201) as i64,
+            (_, false) => rng.below(201) as i64 - 100,
+        })
         .collect()
+}
+/// Input of a slice case: for the map / iter functions `opk` selects the vector function and the data
+/// are family 0; for the folds `opk` is the data family.
+pub fn slice_input(ty: u32, fn_: u32, opk: u32, len: usize, seed: u64) -> Vec<i64> {
+    slice_input_family(ty, len, seed, if fn_ >= S_FOLD { opk } else { 0 })
 }
 
 /// Result of one slice run: observed list (see `model_slice` in SimdModel.v) and whether memory
@@ -215,7 +263,7 @@ fn run_typed<T: SliceElem>(isa: &str, fn_: u32, unroll: u32, opk: u32, xs: &[i64
         }
         let src: &[T] = std::slice::from_raw_parts(ps, n);
         let dst: &mut [MaybeUninit<T>] = std::slice::from_raw_parts_mut(pd as *mut MaybeUninit<T>, n);
-        dispatch_on(isa, SliceOp { fn_, unroll, opk, src, dst, out: &mut out }).expect("isa");
+        dispatch_on(isa, SliceOp { fn_, unroll, opk, acc_max: acc_max(T::TYC), src, dst, out: &mut out }).expect("isa");
         let mut res: Vec<i64> = vec![];
         if fn_ <= S_APPLY {
             // returned-length flag is the last element pushed by eval; fold it into the canary
@@ -270,6 +318,9 @@ pub fn ref_slice(ty: u32, fn_: u32, unroll: u32, opk: u32, lanes: usize, xs: &[i
     let lane_max = |init: i64| -> Vec<i64> {
         (0..lanes).map(|j| xs.iter().enumerate().filter(|(i, _)| i % lanes == j).fold(init, |s, (_, x)| s.max(*x))).collect()
     };
+    let lane_min = |init: i64| -> Vec<i64> {
+        (0..lanes).map(|j| xs.iter().enumerate().filter(|(i, _)| i % lanes == j).fold(init, |s, (_, x)| s.min(*x))).collect()
+    };
     let padded_tail = || -> Vec<i64> { (0..lanes).map(|i| if full + i < n { xs[full + i] } else { 0 }).collect() };
     match fn_ {
         S_MAP_INPLACE | S_MAP | S_APPLY => {
@@ -298,16 +349,16 @@ pub fn ref_slice(ty: u32, fn_: u32, unroll: u32, opk: u32, lanes: usize, xs: &[i
             }
             r
         }
-        S_FOLD => lane_sum(ACC0),
-        S_FOLD_UNROLL => lane_sum(w(unroll as i64 * ACC0)),
-        S_FOLD_N => {
+        S_FOLD | S_FOLD_N => {
             let mut r = lane_sum(ACC0);
-            r.extend(lane_max(ACC0));
+            r.extend(lane_min(ACC_MIN));
+            r.extend(lane_max(acc_max(ty)));
             r
         }
-        S_FOLD_N_UNROLL => {
+        S_FOLD_UNROLL | S_FOLD_N_UNROLL => {
             let mut r = lane_sum(w(unroll as i64 * ACC0));
-            r.extend(lane_max(ACC0));
+            r.extend(lane_min(ACC_MIN));
+            r.extend(lane_max(acc_max(ty)));
             r
         }
         _ => unreachable!(),
